@@ -70,8 +70,13 @@ Postfix == {<<"Dot", "Ident">>, <<"Lbracket", "Num", "Rbracket">>, <<"Lbracket",
             <<"Dot", "Lbrace", "QIdent", "Colon", "Ident", "Comma", "Ident", "Colon", "Ident", "Rbrace">>,
             <<"Filter", "Ident", "Lbracket", "Star", "Rbracket", "Rbracket">>, <<"Filter", "Not", "Ident", "Rbracket">>,
             <<"Or", "Ident">>, <<"And", "Ident">>, <<"Cmp", "Ident">>}
+CorePostfix == {<<"Dot", "Ident">>, <<"Lbracket", "Num", "Rbracket">>, <<"Lbracket", "Star", "Rbracket">>, <<"Flatten">>,
+                <<"Filter", "Ident", "Rbracket">>, <<"Lbracket", "Num", "Colon", "Rbracket">>, <<"Dot", "Star">>,
+                <<"Dot", "Lbrace", "Ident", "Colon", "Ident", "Rbrace">>}
+(* IOEnv.LINKS = "core": the eight plain postfix operators only (so that one more level stays enumerable) *)
+Links == IF "LINKS" \in DOMAIN IOEnv /\ IOEnv.LINKS = "core" THEN CorePostfix ELSE Postfix
 RECURSIVE ChainsOf(_)
-ChainsOf(n) == IF n = 0 THEN {<<>>} ELSE LET c == ChainsOf(n - 1) IN c \cup {x \o p : x \in {y \in c : TRUE}, p \in Postfix}
+ChainsOf(n) == IF n = 0 THEN {<<>>} ELSE LET c == ChainsOf(n - 1) IN c \cup {x \o p : x \in {y \in c : TRUE}, p \in Links}
 ChainKinds(zzdummy) == LET cs == ChainsOf(N) \ {<<>>}
               IN {<<"Ident">> \o c : c \in cs} \cup {<<"At">> \o c : c \in cs} \cup {<<"Not", "Ident">> \o c : c \in cs}
                  \cup {<<"Lbracket", "Num", "Rbracket">> \o c : c \in ChainsOf(N - 1) \ {<<>>}}        \* a bare index first
